@@ -78,7 +78,7 @@ theorem headerErr_of_chunk {c : Config} {s : Inbound} {m : Msg} (ho : c.origin =
     (ht : s.rdtype = c.rdtype)
     (h : m.rcode = 0 ∧ (m.question = [] ∨ ∃ o rest, c.origin = some o ∧ m.question = (o, c.rdtype) :: rest)) :
     headerErr s m = none := by
-  unfold headerErr
+  unfold headerErr headerErrOf
   rcases h with ⟨hr, hq | ⟨o, rest, hco, hq⟩⟩
   · simp [hr, hq]
   · rw [ho] at hco; cases hco
